@@ -38,7 +38,7 @@ SPEC = {
                   "(as opposed to class-level) lock identity, and the link between this discipline and the Go memory model. "
                   "DEADLOCK BY LOCK-CLASS ORDER: on every run a translator re-derives from the source the lock classes of the module (struct type + "
                   "sync.Mutex / sync.RWMutex field, 21 classes) and every edge 'class b may be acquired while class a is held' (intra-procedural "
-                  "may-held dataflow with deferred unlocks + call-graph closure; 44 edges), and Coq re-checks by reflection that the graph minus the "
+                  "may-held dataflow with deferred unlocks + call-graph closure; 40 edges at the time of writing), and Coq re-checks by reflection that the graph minus the "
                   "two inversions listed as known findings (F28 HandshakeManager<->HostMap, F29 HostMap<->RemoteList: both are real nestings in the "
                   "code) is acyclic, same-class nesting included. Machine-checked theorems: the acyclicity checker is sound (no path from a class "
                   "back to itself), and in any system of threads in which every acquisition-while-holding follows an edge of an acyclic graph no "
@@ -49,7 +49,7 @@ SPEC = {
                   "closures bound at their call site) - the translator itself is not verified; code outside the module is opaque (its locks are "
                   "not classes; it is assumed to call back only through function values passed directly and through formatting methods of values "
                   "boxed for logging); a lock whose receiver cannot be traced to a field or package variable gets a site-local class; class-level "
-                  "order is stricter than instance-level order, so an edge may be spurious (none of the 44 was found to be after refinement) and "
+                  "order is stricter than instance-level order, so an edge may be spurious (none of them was found to be after refinement) and "
                   "RLock is treated like Lock (a recursive read lock can deadlock behind a queued writer). Write discipline: the same translator "
                   "(go/lockgraph/guards.go) is trusted for the enumeration of write sites (SSA Store / MapUpdate / delete / clear whose address is "
                   "syntactically a field path of the struct; a write through an alias is not seen), for freshness (an ssa.Alloc of the same function "
